@@ -12,8 +12,8 @@
 EXTENDS TreeBandit, TraceTree, Json, IOUtils, TLCExt
 
 Traces == JsonDeserialize(IOEnv.TRACE_FILE)
-VARIABLES tid, l, T, F, iter, ph, ends, npull, grown, err, done
-vars == <<tid, l, T, F, iter, ph, ends, npull, grown, err, done>>
+VARIABLES tid, l, T, F, iter, ph, ends, npull, grown, err, done, soft
+vars == <<tid, l, T, F, iter, ph, ends, npull, grown, err, done, soft>>
 Tr == Traces[tid]
 PP == Tr.P
 Ev == Tr.ev
@@ -29,7 +29,7 @@ Changed(fc) == {fc[i][1] : i \in DOMAIN fc}
 Fresh(x) == x[2] = 0 /\ x[3] = 0 /\ x[4] = 0 /\ x[5] = 0 /\ x[7] = PInf /\ x[8] = PInf
 
 Init == /\ tid \in 1 .. Len(Traces) /\ l = 1 /\ ph = "new" /\ err = "ok" /\ done = FALSE
-        /\ T = [n |-> 0] /\ F = <<>> /\ iter = 0 /\ ends = {} /\ npull = 0 /\ grown = <<>>
+        /\ T = [n |-> 0] /\ F = <<>> /\ iter = 0 /\ ends = {} /\ npull = 0 /\ grown = <<>> /\ soft = <<"ok", 0>>
 
 \* a base learner driven by POO / GPO: a reward without a preceding pull (or two pulls in a row) is the wrapper
 \* crediting a learner for a point it did not propose -- a verdict about the wrapper, not a harness error
@@ -87,28 +87,34 @@ RecvCheck(e, e0) ==
       want == IF Grows(PP, stB, e0, k) THEN <<e0>> ELSE <<>>
       tch  == Touched(PP, st0, e0)
   IN
-  IF ~(\A c \in Cells(T) : st1.cnt[c] = exp.cnt[c]) THEN "credit.count"            \* C04: exactly the credited cells, +1
-  ELSE IF ~(\A c \in Cells(T) : st1.sum[c] = exp.sum[c] /\ st1.sq[c] = exp.sq[c]) THEN "credit.reward"
-  ELSE IF ~(\A c \in Cells(T) : F1[c][4] = st1.cnt[c]) THEN "credit.list-length"
-  ELSE IF ~(\A c \in cs : AbsI(F1[c][5] - MeanFx(PP, st1, c)) <= 1) THEN "stats.mean"
-  ELSE IF ~(\A c \in Cells(T) \ cs : F1[c][5] = F[c][5]) THEN "stats.mean-foreign"
-  ELSE IF PP.algo = "VHCT" /\ ~(\A c \in cs : AbsI(F1[c][8] - VarFx(PP, st1, c)) <= PP.tolv) THEN "stats.variance"
-  ELSE IF PP.algo = "VHCT" /\ ~(\A c \in Cells(T) \ cs : F1[c][8] = F[c][8]) THEN "stats.variance-foreign"
-  ELSE IF ~(\A c \in tch : Close(st1.U[c], UVal(PP, st1, c, k), TolU(st1, c, k))) THEN "index.U"          \* C05: published index
-  ELSE IF ~(\A c \in Cells(T) \ tch : st1.U[c] = st0.U[c]) THEN "index.U-stale"
-  ELSE IF ~BLaw(st1) THEN "index.B"                                                      \* C05: B-law on every cell
-  ELSE IF grown # want THEN (IF grown = <<>> THEN "grow.missing" ELSE IF want = <<>> THEN "grow.unexpected" ELSE "grow.wrong-cell")   \* C06
-  ELSE IF ~CountsOK(F1, iter + 1) THEN "credit.total"                                     \* C04: counts sum to the completed rounds
-  ELSE "ok"
+  \* <<hard clause, soft clause>>.  The index clauses (C05) are soft: every later decision is checked on the observed
+  \* codes, so the walk goes on and the expansions of the following rounds are still judged (C06) -- a wrong index must
+  \* not hide a wrong expansion, nor the other way round.
+  << IF ~(\A c \in Cells(T) : st1.cnt[c] = exp.cnt[c]) THEN "credit.count"            \* C04: exactly the credited cells, +1
+     ELSE IF ~(\A c \in Cells(T) : st1.sum[c] = exp.sum[c] /\ st1.sq[c] = exp.sq[c]) THEN "credit.reward"
+     ELSE IF ~(\A c \in Cells(T) : F1[c][4] = st1.cnt[c]) THEN "credit.list-length"
+     ELSE IF ~(\A c \in cs : AbsI(F1[c][5] - MeanFx(PP, st1, c)) <= 1) THEN "stats.mean"
+     ELSE IF ~(\A c \in Cells(T) \ cs : F1[c][5] = F[c][5]) THEN "stats.mean-foreign"
+     ELSE IF PP.algo = "VHCT" /\ ~(\A c \in cs : AbsI(F1[c][8] - VarFx(PP, st1, c)) <= PP.tolv) THEN "stats.variance"
+     ELSE IF PP.algo = "VHCT" /\ ~(\A c \in Cells(T) \ cs : F1[c][8] = F[c][8]) THEN "stats.variance-foreign"
+     ELSE IF grown # want THEN (IF grown = <<>> THEN "grow.missing" ELSE IF want = <<>> THEN "grow.unexpected" ELSE "grow.wrong-cell")   \* C06
+     ELSE IF ~CountsOK(F1, iter + 1) THEN "credit.total"                                     \* C04: counts sum to the completed rounds
+     ELSE "ok",
+     IF ~(\A c \in tch : Close(st1.U[c], UVal(PP, st1, c, k), TolU(st1, c, k))) THEN "index.U"          \* C05: published index
+     ELSE IF ~(\A c \in Cells(T) \ tch : st1.U[c] = st0.U[c]) THEN "index.U-stale"
+     ELSE IF ~BLaw(st1) THEN "index.B"                                                      \* C05: B-law on every cell
+     ELSE "ok" >>
 
 RecvStep(e) ==
-  LET verdicts == {RecvCheck(e, e0) : e0 \in ends} IN
-  [F |-> ApplyFc(F, e.fc),
-   err |-> IF "ok" \in verdicts THEN "ok" ELSE CHOOSE v \in verdicts : TRUE]
+  LET verdicts == {RecvCheck(e, e0) : e0 \in ends}
+      best == IF <<"ok", "ok">> \in verdicts THEN <<"ok", "ok">>
+              ELSE IF \E v \in verdicts : v[1] = "ok" THEN CHOOSE v \in verdicts : v[1] = "ok"
+              ELSE CHOOSE v \in verdicts : TRUE
+  IN [F |-> ApplyFc(F, e.fc), err |-> best[1], soft |-> best[2]]
 
 \* ---- make_children during receive_reward -----------------------------------------
 MkStep(e) ==
-  LET c == MkCheck(PP, T, e) IN
+  LET c == MkCheckEv(PP, T, e, LAMBDA d : F[d][1] > 0) IN
   IF c # "ok" THEN [T |-> T, F |-> F, err |-> c]
   ELSE IF ph # "asked" THEN [T |-> T, F |-> F, err |-> "grow.outside-receive"]
   ELSE IF grown # <<>> THEN [T |-> T, F |-> F, err |-> "grow.second-expansion"]            \* C06: at most one per round
@@ -123,41 +129,42 @@ Step ==
      CASE e.k = "init" ->
             LET r == InitStep(e) IN
             /\ T' = r.T /\ F' = r.F /\ err' = r.err /\ ph' = "told"
-            /\ iter' = (IF IsHCT(PP) THEN 1 ELSE 0) /\ UNCHANGED <<ends, npull, grown>>
+            /\ iter' = (IF IsHCT(PP) THEN 1 ELSE 0) /\ UNCHANGED <<ends, npull, grown, soft>>
        [] e.k = "mk" ->
             LET r == MkStep(e) IN
             /\ T' = r.T /\ F' = r.F /\ err' = r.err /\ grown' = Append(grown, e.p)
-            /\ UNCHANGED <<iter, ph, ends, npull>>
+            /\ UNCHANGED <<iter, ph, ends, npull, soft>>
        [] e.k = "pull" ->
             LET f == CallFail(e) IN
-            IF ph # "told" THEN err' = ProtoErr /\ UNCHANGED <<T, F, iter, ph, ends, npull, grown>>
-            ELSE IF f # "ok" THEN err' = f /\ UNCHANGED <<T, F, iter, ph, ends, npull, grown>>
+            IF ph # "told" THEN err' = ProtoErr /\ UNCHANGED <<T, F, iter, ph, ends, npull, grown, soft>>
+            ELSE IF f # "ok" THEN err' = f /\ UNCHANGED <<T, F, iter, ph, ends, npull, grown, soft>>
             ELSE LET r == PullStep(e) IN
                  /\ F' = r.F /\ ends' = r.ends /\ err' = r.err /\ ph' = "asked" /\ npull' = T.n /\ grown' = <<>>
-                 /\ UNCHANGED <<T, iter>>
+                 /\ UNCHANGED <<T, iter, soft>>
        [] e.k = "glp" ->
             LET f == CallFail(e) IN
-            IF f # "ok" THEN err' = f /\ UNCHANGED <<T, F, iter, ph, ends, npull, grown>>
+            IF f # "ok" THEN err' = f /\ UNCHANGED <<T, F, iter, ph, ends, npull, grown, soft>>
             ELSE LET r == PullStep(e) IN
                  \* get_last_point = one more optimistic descent; nothing the next round reads may change (C15)
                  /\ F' = r.F /\ err' = (IF r.err = "pull.not-optimistic" THEN "rec.not-optimistic" ELSE r.err)
-                 /\ UNCHANGED <<T, iter, ph, ends, npull, grown>>
+                 /\ UNCHANGED <<T, iter, ph, ends, npull, grown, soft>>
        [] e.k = "recv" ->
             LET f == CallFail(e) IN
-            IF ph # "asked" THEN err' = ProtoErr /\ UNCHANGED <<T, F, iter, ph, ends, npull, grown>>
-            ELSE IF f # "ok" THEN err' = f /\ UNCHANGED <<T, F, iter, ph, ends, npull, grown>>
+            IF ph # "asked" THEN err' = ProtoErr /\ UNCHANGED <<T, F, iter, ph, ends, npull, grown, soft>>
+            ELSE IF f # "ok" THEN err' = f /\ UNCHANGED <<T, F, iter, ph, ends, npull, grown, soft>>
             ELSE LET r == RecvStep(e) IN
                  /\ F' = r.F /\ err' = r.err /\ ph' = "told" /\ iter' = iter + 1
+                 /\ soft' = (IF soft[1] = "ok" /\ r.soft # "ok" THEN <<r.soft, l>> ELSE soft)
                  /\ UNCHANGED <<T, ends, npull, grown>>
        [] e.k = "end" -> /\ err' = IF ~StructOK(PP, T) THEN "final.struct" ELSE "ok"
-                        /\ UNCHANGED <<T, F, iter, ph, ends, npull, grown>>
-       [] OTHER -> err' = "unknown-event" /\ UNCHANGED <<T, F, iter, ph, ends, npull, grown>>
+                        /\ UNCHANGED <<T, F, iter, ph, ends, npull, grown, soft>>
+       [] OTHER -> err' = "unknown-event" /\ UNCHANGED <<T, F, iter, ph, ends, npull, grown, soft>>
   /\ l' = l + 1 /\ UNCHANGED <<tid, done>>
 
 Finish ==
   /\ ~done /\ (err # "ok" \/ l > Len(Ev))
-  /\ PrintT(<<"VERDICT", Tr.id, err, l - 1, IF T.n > 0 THEN T.n ELSE 0>>)
-  /\ done' = TRUE /\ UNCHANGED <<tid, l, T, F, iter, ph, ends, npull, grown, err>>
+  /\ PrintT(<<"VERDICT", Tr.id, err, l - 1, IF T.n > 0 THEN T.n ELSE 0, soft[1], soft[2]>>)
+  /\ done' = TRUE /\ UNCHANGED <<tid, l, T, F, iter, ph, ends, npull, grown, err, soft>>
 
 Next == Step \/ Finish
 Spec == Init /\ [][Next]_vars
